@@ -12,7 +12,7 @@ PROP = 'C17'
 RULE = ('complete products: all texts of length 0..3 (4 thorough) over {a,B,?,*,~,.,(} x n in -1..len+2 for LEFT/RIGHT '
         '(and n omitted), x k,n in -1..len+2 for MID, and the identity LEFT(t,n)&MID(t,n+1,len)=t for 0<=n<len, texts as '
         'overrides (the length<=2 subset also as workbook constants and literals); SEARCH over all find texts of length '
-        '1..2 (3 thorough) over {a,B,.,*,?,~} x all within texts of length 1..3 (4 thorough) over {a,A,b,.,*} x start in '
+        '1..3 over {a,B,.,*,?,~} x all within texts of length 1..3 (4 thorough) over {a,A,b,.,*} x start in '
         '{omitted,1..len+1}; & and CONCATENATE over all ordered pairs and triples of 10 operand values; VALUE over the '
         'decimal grid texts with sign, padding and integer percents; non-trivial = clipped slices, empty results, errors, '
         'wildcard / case-differing searches, non-text operands')
@@ -123,7 +123,7 @@ CONCAT_VALUES = [3, 2.5, 2.0, -1, 'x', '', True, False, None, DT(2020, 1, 31), 0
 def plan(tier, seed):
     th = tier == 'thorough'
     L = 4 if th else 3
-    FL, WL = (3, 4) if th else (2, 3)
+    FL, WL = (3, 4) if th else (3, 3)
 
     def slice_cases(hi):
         for t in texts(TCHARS, 0, hi):
